@@ -281,7 +281,7 @@ pub fn structured_from_bytes(data: &[u8], obs: &mut Obs) -> PropResult {
 	let split = ((data[0] as usize * data.len()) >> 8).max(1).min(data.len() - 1);
 	let (a, b) = data.split_at(split);
 	let model = class_from_stream(a, 4, 40);
-	let ch = Choices { pool_seed: b.first().copied().unwrap_or(0) as u64, attr_seed: b.get(1).copied().unwrap_or(0) as u64, stream: b.to_vec(), junk_pool: b.get(2).copied().unwrap_or(0) % 8, junk_first: b.get(3).copied().unwrap_or(0) % 2 == 1, pool_first: vec![] };
+	let ch = Choices { pool_seed: b.first().copied().unwrap_or(0) as u64, attr_seed: b.get(1).copied().unwrap_or(0) as u64, stream: b.to_vec(), junk_pool: b.get(2).copied().unwrap_or(0) % 8, junk_first: b.get(3).copied().unwrap_or(0) % 2 == 1, pool_first: vec![], dup_used: if b.get(4).copied().unwrap_or(0) % 4 == 3 { b.get(5).copied().unwrap_or(0) % 61 } else { 0 } };
 	let Ok(enc) = encode(&model, &ch) else { return Ok(()) };
 	let mut expected = model.canon();
 	apply_reader_masks(&mut expected, obs);
